@@ -468,11 +468,68 @@ def guards(fn: ast.AST, node: ast.AST, pm: Optional[Dict] = None) -> List[Tuple[
                     out.append((par.test, fld == "body"))
                 elif isinstance(par, ast.While) and fld == "body":
                     out.append((par.test, True))
-        if isinstance(par, ast.ExceptHandler):
-            pass
+        # expression-level control: a later operand of and/or runs only when the earlier ones did not decide; the arms of a conditional
+        # expression run under its test
+        if isinstance(par, ast.BoolOp) and cur in par.values:
+            for prev in par.values[:par.values.index(cur)]:
+                out.append((prev, isinstance(par.op, ast.And)))
+        elif isinstance(par, ast.IfExp) and cur is not par.test:
+            out.append((par.test, cur is par.body))
         cur = par
     # canonical polarity: (not x, T) is reported as (x, F), (a != b, T) as (a == b, F) - rules never depend on how a test is spelled
-    return [positive(t, tr) for t, tr in out]
+    return _close([positive(t, tr) for t, tr in out])
+
+
+def _close(gs: List[Tuple[ast.AST, bool]]) -> List[Tuple[ast.AST, bool]]:
+    """Propositional closure of a guard list into its atoms, so that rules do not depend on how a compound condition is spelled:
+    (A and B, T) gives (A, T), (B, T);  (A or B, F) gives (A, F), (B, F);  (A and B, F) with (A, T) known gives (B, F);
+    (A or B, T) with (A, F) known gives (B, T).  The compound guards are kept, the atoms are appended (no duplicates)."""
+    out = list(gs)
+    known = {(ast.unparse(t), tr) for t, tr in out}
+
+    def add(t, tr):
+        t, tr = positive(t, tr)
+        k = (ast.unparse(t), tr)
+        if k not in known:
+            known.add(k)
+            out.append((t, tr))
+
+    i = 0
+    rounds = 0
+    while i < len(out) and rounds < 400:
+        rounds += 1
+        t, tr = out[i]
+        i += 1
+        if isinstance(t, ast.BoolOp):
+            conj = isinstance(t.op, ast.And)
+            if tr == conj:                       # (A and B) true / (A or B) false: every operand has that value
+                for v in t.values:
+                    add(v, tr)
+            else:                                # exactly-one-left resolution
+                undecided = []
+                for v in t.values:
+                    pv, ptr = positive(v, True)
+                    if (ast.unparse(pv), ptr if conj else not ptr) in known:
+                        continue                 # this operand is known not to be the deciding one
+                    undecided.append(v)
+                if len(undecided) == 1:
+                    add(undecided[0], not conj)
+                elif undecided and i <= len(out) and rounds < 200:
+                    pass
+    # one more resolution pass for compound guards that preceded the facts they needed
+    for t, tr in list(out):
+        if isinstance(t, ast.BoolOp):
+            conj = isinstance(t.op, ast.And)
+            if tr != conj:
+                undecided = []
+                for v in t.values:
+                    pv, ptr = positive(v, True)
+                    if (ast.unparse(pv), ptr if conj else not ptr) in known:
+                        continue
+                    undecided.append(v)
+                if len(undecided) == 1:
+                    add(undecided[0], not conj)
+    return out
 
 
 def enclosing(fn: ast.AST, node: ast.AST, kinds, pm: Optional[Dict] = None) -> List[ast.AST]:
@@ -548,3 +605,195 @@ def pguards(fn: ast.AST, node: ast.AST, pm: Optional[Dict] = None) -> List[Tuple
         p, v = positive(t, tr)
         out.append((ast.unparse(p), v))
     return out
+
+
+# ---------------------------------------------------------------------------
+# outcomes of a function: what it returns / raises, under which conditions (spelling-independent)
+
+
+@dataclass
+class Outcome:
+    kind: str                       # return | raise | end (falls off the end: returns None)
+    value: Optional[ast.AST]
+    guards: FrozenSet[Tuple[str, bool]]
+    node: Optional[ast.AST]
+
+    @property
+    def text(self) -> str:
+        return "None" if self.value is None else ast.unparse(self.value)
+
+    def under(self, *req: Tuple[str, bool]) -> bool:
+        return all(r in self.guards for r in req)
+
+    @property
+    def cguards(self) -> FrozenSet[Tuple[str, bool]]:
+        """the guards with ordering tests in canonical `<` form (n >= 0 True is reported as (n < 0, False))"""
+        out = set()
+        for t, tr in self.guards:
+            a, pol = canon_atom(ast.parse(t, mode="eval").body)
+            out.add((a, tr == pol))
+        return frozenset(out)
+
+
+def _own_nodes(fn):
+    todo = list(fn.body)
+    while todo:
+        n = todo.pop()
+        yield n
+        if isinstance(n, (ast.FunctionDef, ast.AsyncFunctionDef, ast.Lambda, ast.ClassDef)):
+            continue
+        todo.extend(ast.iter_child_nodes(n))
+
+
+def outcomes(fn: ast.AST) -> List[Outcome]:
+    """Every way the function ends, with the closed positive-form guard set (see guards) it ends under.  `return None`, a bare
+    `return` and falling off the end are all reported with value None."""
+    pm = parent_map(fn)
+    out: List[Outcome] = []
+    for n in _own_nodes(fn):
+        if isinstance(n, (ast.Return, ast.Raise)):
+            gs = frozenset((ast.unparse(t), tr) for t, tr in guards(fn, n, pm))
+            if isinstance(n, ast.Return):
+                v = n.value
+                if isinstance(v, ast.Constant) and v.value is None:
+                    v = None
+                out.append(Outcome("return", v, gs, n))
+            else:
+                out.append(Outcome("raise", n.exc, gs, n))
+    if not _always_exits(fn.body):
+        marker = ast.Pass()
+        fn.body.append(marker)
+        try:
+            pm2 = parent_map(fn)
+            gs = frozenset((ast.unparse(t), tr) for t, tr in guards(fn, marker, pm2))
+        finally:
+            fn.body.pop()
+        out.append(Outcome("end", None, gs, None))
+    out.sort(key=lambda o: getattr(o.node, "_ord", 1 << 30) if o.node is not None else 1 << 30)
+    return out
+
+
+def returns_under(fn: ast.AST, value_pred, *req: Tuple[str, bool]) -> List[Outcome]:
+    """the return outcomes (incl. the implicit None) whose value satisfies value_pred(text, node) and whose guards include req"""
+    return [o for o in outcomes(fn) if o.kind in ("return", "end") and o.under(*req) and value_pred(o.text, o.value)]
+
+
+def assigns(fn: ast.AST, target_src: str) -> List[Tuple[ast.AST, FrozenSet[Tuple[str, bool]], ast.AST]]:
+    """(value, closed guard set, statement) for every plain assignment to `target_src` in the function's own code"""
+    pm = parent_map(fn)
+    out = []
+    for n in _own_nodes(fn):
+        if isinstance(n, ast.Assign) and any(ast.unparse(t) == target_src for t in n.targets):
+            out.append((n.value, frozenset((ast.unparse(t), tr) for t, tr in guards(fn, n, pm)), n))
+    out.sort(key=lambda x: getattr(x[2], "_ord", 0))
+    return out
+
+
+def calls_under(fn: ast.AST, pred) -> List[Tuple[ast.Call, FrozenSet[Tuple[str, bool]]]]:
+    """(call, closed guard set) for every call in the function's own code with pred(call) true"""
+    pm = parent_map(fn)
+    out = []
+    for n in _own_nodes(fn):
+        if isinstance(n, ast.Call) and pred(n):
+            out.append((n, frozenset((ast.unparse(t), tr) for t, tr in guards(fn, n, pm))))
+    out.sort(key=lambda x: getattr(x[0], "_ord", 0))
+    return out
+
+
+# ---------------------------------------------------------------------------
+# predicates as truth tables (finite evaluation of the propositional skeleton; the atoms stay uninterpreted)
+
+_ORD = {ast.Gt: ("lt", True, True), ast.Lt: ("lt", False, True), ast.GtE: ("lt", False, False), ast.LtE: ("lt", True, False)}
+
+
+def canon_atom(e: ast.AST) -> Tuple[str, bool]:
+    """(canonical text, polarity) of a non-boolean test: not / != / is not / not in folded into the polarity; a > b, a >= b, a <= b
+    re-expressed over `<` (a >= b is `not a < b`: the operands of every ordering test in this code base are lengths and counts)."""
+    t, pol = positive(e, True)
+    if isinstance(t, ast.Compare) and len(t.ops) == 1 and type(t.ops[0]) in _ORD:
+        _, swap, keep = _ORD[type(t.ops[0])]
+        a, b = (t.comparators[0], t.left) if swap else (t.left, t.comparators[0])
+        return f"{ast.unparse(a)} < {ast.unparse(b)}", pol if keep else not pol
+    return ast.unparse(t), pol
+
+
+def predicate_table(fn: ast.AST) -> Tuple[List[str], Dict[Tuple[bool, ...], object]]:
+    """The function as a decision procedure over its atoms: (atoms, {assignment: True/False/('value', text)/None}).  Only ifs, returns and
+    a docstring may occur (anything else: AnalysisError - the caller defers).  Evaluation short-circuits like Python does."""
+    atoms: List[str] = []
+
+    def collect(n):
+        if isinstance(n, ast.BoolOp):
+            for v in n.values:
+                collect(v)
+        elif isinstance(n, ast.UnaryOp) and isinstance(n.op, ast.Not):
+            collect(n.operand)
+        elif isinstance(n, ast.Constant) and isinstance(n.value, bool):
+            pass
+        else:
+            a, _ = canon_atom(n)
+            if a not in atoms:
+                atoms.append(a)
+
+    def scan(stmts):
+        for st in stmts:
+            if isinstance(st, ast.Expr) and isinstance(st.value, ast.Constant):
+                continue
+            if isinstance(st, ast.Pass):
+                continue
+            if isinstance(st, ast.If):
+                collect(st.test)
+                scan(st.body)
+                scan(st.orelse)
+            elif isinstance(st, ast.Return):
+                if st.value is not None:
+                    collect(st.value)
+            else:
+                raise AnalysisError(f"{getattr(fn, 'name', '?')} is not a pure decision procedure (statement `{ast.unparse(st)[:50]}`)")
+
+    scan(fn.body)
+    if len(atoms) > 10:
+        raise AnalysisError(f"{getattr(fn, 'name', '?')}: too many atoms for a truth table")
+
+    def ev(n, env):
+        if isinstance(n, ast.BoolOp):
+            if isinstance(n.op, ast.And):
+                r = True
+                for v in n.values:
+                    r = ev(v, env)
+                    if not r:
+                        return r
+                return r
+            r = False
+            for v in n.values:
+                r = ev(v, env)
+                if r:
+                    return r
+            return r
+        if isinstance(n, ast.UnaryOp) and isinstance(n.op, ast.Not):
+            return not ev(n.operand, env)
+        if isinstance(n, ast.Constant) and isinstance(n.value, bool):
+            return n.value
+        a, pol = canon_atom(n)
+        return env[a] == pol
+
+    class _Ret(Exception):
+        pass
+
+    def run(stmts, env):
+        for st in stmts:
+            if isinstance(st, ast.If):
+                r = run(st.body if ev(st.test, env) else st.orelse, env)
+                if r is not _Ret:
+                    return r
+            elif isinstance(st, ast.Return):
+                return None if st.value is None else ev(st.value, env)
+        return _Ret
+
+    import itertools
+    table = {}
+    for bits in itertools.product([False, True], repeat=len(atoms)):
+        env = dict(zip(atoms, bits))
+        r = run(fn.body, env)
+        table[bits] = None if r is _Ret else r
+    return atoms, table
